@@ -59,13 +59,15 @@ for _l in "LTM":
 
 # (name, kind, base assignment, variant assignment, flavors or None)
 FAM_QUICK = [
-    ("dy-both", "dyadic", {"A": "Lb", "B": "Tb"}, {"A": "La", "B": "Td"}),
+    ("dy-both", "dyadic", {"A": "Lb", "B": "Tb"}, {"A": "La", "B": "Td"}),      # A x 2**12, B x 2**24
+    ("dy-A", "dyadic", {"A": "Lb", "B": "Tb"}, {"A": "La", "B": "Tb"}),         # A alone: no label error A**a B**b stays invisible in both
 ]
 FAM_THOROUGH = FAM_QUICK + [
-    ("dy-A", "dyadic", {"A": "Lb", "B": "Tb"}, {"A": "La", "B": "Tb"}),
     ("dy-B", "dyadic", {"A": "Lb", "B": "Tb"}, {"A": "Lb", "B": "Ta"}),
-    ("dy-up", "dyadic", {"A": "Lb", "B": "Tb"}, {"A": "Lc", "B": "Tc"}),
+    ("dy-up", "dyadic", {"A": "Lb", "B": "Tb"}, {"A": "Lc", "B": "Tc"}),        # towards larger units (numbers shrink; floats only)
+    ("dy-cross", "dyadic", {"A": "Lb", "B": "Tb"}, {"A": "Lc", "B": "Td"}),     # A up, B down
     ("dy-compound", "dyadic", {"A": "Mb*Lb/Tb**2", "B": "1/Ta"}, {"A": "Ma*La/Tb**2", "B": "1/Tb"}),
+    ("dy-area", "dyadic", {"A": "Lb**2", "B": "Tb/Lb"}, {"A": "La**2", "B": "Ta/Lb"}),
     ("ord", "ordinary", {"A": "m", "B": "s"}, {"A": "cm", "B": "ms"}),
     ("ord-compound", "ordinary", {"A": "kg*m/s**2", "B": "1/ms"}, {"A": "g*cm/s**2", "B": "1/s"}),
 ]
@@ -407,7 +409,7 @@ def worker(batch, rec):
     quick = tier == "quick"
     fams = FAM_QUICK if quick else FAM_THOROUGH
     dtypes = ("f8", "i8", "c16", "f4") if quick else ("f8", "i8", "c16", "f4", "i4", "c8")
-    draws = [("int", 0), ("frac", 1), ("gen", 2), ("zero", 3)] if quick else [(("int", "frac", "gen")[i % 3], i) for i in range(6)] + [("zero", 6)]
+    draws = [("int", 0), ("frac", 1), ("gen", 2), ("zero", 3)] if quick else [(("int", "frac", "gen")[i % 3], i) for i in range(12)] + [("zero", 12)]
     reg = dyadic.registry(unyt, TABLE)
     wraps = {}
     for name, kind, base, var in fams:
